@@ -679,6 +679,26 @@ func c16Pairing(c *Ctx, r *Report, an *Anchors, a *atlasAnchors) {
 				} else {
 					detail = fmt.Sprintf("format=%q", format)
 				}
+			} else if b1, ok := peel(cc.Call.Args[0]).(*ssa.BinOp); ok && b1.Op == token.ADD {
+				// outputFile + "." + strconv.Itoa(i): the same text as Sprintf("%s.%d", outputFile, i)
+				if b0, ok := peel(b1.X).(*ssa.BinOp); ok && b0.Op == token.ADD {
+					name, isFlag := an.flagOfValue(cl, b0.X)
+					dot, isDot := constString(b0.Y)
+					idxOK := false
+					if ic, ok := peel(b1.Y).(*ssa.Call); ok {
+						switch calleeKey(&ic.Call) {
+						case "strconv.Itoa":
+							idxOK = peel(ic.Call.Args[0]) == loop.Idx
+						case "strconv.FormatInt":
+							if cv, ok := peel(ic.Call.Args[0]).(*ssa.Convert); ok {
+								base, isC := constInt(ic.Call.Args[1])
+								idxOK = peel(cv.X) == loop.Idx && isC && base == 10
+							}
+						}
+					}
+					fmtOK = isFlag && name == "outputFile" && isDot && dot == "." && idxOK
+					detail = fmt.Sprintf("concatenation: operand0=flag(%s) separator=%q lastIsDecimalLoopIndex=%v", name, dot, idxOK)
+				}
 			}
 		}
 		r.Check(everyIter && inOK && outOK && fmtOK, "C16-R6", construct, c.InstrPos(pc),
